@@ -17,7 +17,7 @@ closed by design.  Also checked: `unsafe impl`s are for std types only; no trans
 """
 import re
 from vlib import sym, rules, effects, dbm as dbmmod
-from vlib.facts import callee
+from vlib.facts import callee, callee_def
 import props.C13 as c13
 import props.C17 as c17
 import props.C19 as c19
@@ -662,10 +662,10 @@ def check_strict_producers(ctx, F):
                     if c19.validator_ok_before(r, i, F) == 'fixed_point':
                         how = 'filled inside the fixed-point validator (validated total 2^PRECISION)'
                     for x in r.events[:i]:
-                        if x['kind'] == 'call' and x['name'] == 'resize' and len(x['args']) >= 2 and _is_pow2_precision(x['args'][1]):
+                        if x['kind'] == 'call' and x['name'] == 'resize' and len(x['args']) >= 2 and _is_pow2_precision(rules.inline_pure(F, x['args'][1], depth=2)):
                             how = 'Vec::resize(1 << PRECISION, _)'
                     for t, v, _ in r.preds[:e['npreds']]:
-                        if t[0] == 'bin' and t[1] in ('Eq', 'Ne') and any(o[0] == 'len' for o in (t[2], t[3])) and any(_is_pow2_precision(o) for o in (t[2], t[3])):
+                        if t[0] == 'bin' and t[1] in ('Eq', 'Ne') and any(o[0] == 'len' for o in (t[2], t[3])) and any(_is_pow2_precision(rules.inline_pure(F, o, depth=2)) for o in (t[2], t[3])):
                             how = 'asserted: len == 1 << PRECISION'
                     if how is None:
                         fields = dict(zip(e['fnames'], e['vals']))
@@ -868,6 +868,30 @@ def _shifts_guarded_at_run_time(b, param, w):
     return n > 0
 
 
+def _callers_bound(F, b, param, w):
+    """b is a private helper (not pub) and every crate-local caller statically bounds the same-named const parameter below w"""
+    if b.vis == 'pub' or b.dk not in ('Fn', 'AssocFn'):
+        return False
+    callers = []
+    for c in F.bodies:
+        if c.promoted is not None or c is b:
+            continue
+        for blk, t in c.calls():
+            if callee_def(t) == b.defpath:
+                callers.append(c)
+                break
+    if not callers:
+        return False
+    for c in callers:
+        root = c.defpath.split('::{closure')[0]
+        bounds = _static_bounds(F, c)
+        if c.dk == 'Closure' and root in F.by_def:
+            bounds = dict(_static_bounds(F, F.by_def[root]), **bounds)
+        if not (param in bounds and bounds[param] <= w):
+            return False
+    return True
+
+
 def check_const_shift_bounded(ctx, F):
     """A built-in shift of a concrete integer by a const generic parameter (`1usize << PRECISION`) overflows when the parameter
     reaches the width of the integer: a panic in debug builds, a masked shift (1 << 0) in release builds - arithmetic that is only
@@ -905,6 +929,8 @@ def check_const_shift_bounded(ctx, F):
                 ctx.unresolved('R9', role, b.defpath, 'width of the shifted type not known', key=key)
             elif param in bounds and bounds[param] <= w:
                 ctx.ok('R9', role, b.defpath, '%d shift(s) by %s of a %d-bit integer; static assertion %s < %d in the same function' % (len(spans), param, w, param, bounds[param]), key=key)
+            elif _callers_bound(F, b, param, w):
+                ctx.ok('R9', role, b.defpath, '%d shift(s) by %s of a %d-bit integer in a private helper; every caller carries the compile-time bound %s < %d' % (len(spans), param, w, param, w), key=key)
             elif _shifts_guarded_at_run_time(b, param, w):
                 ctx.ok('R9', role, b.defpath, '%d shift(s) by %s of a %d-bit integer, each behind a decision `%s < %d` on its path (the const comparison is evaluated before the shift)' % (len(spans), param, w, param, w), key=key)
             else:
@@ -969,6 +995,8 @@ def run(ctx):
     check_strict_producers(ctx, F)
     check_validators_fetch_once(ctx, F)
     check_const_shift_bounded(ctx, F)
+    import props.C05 as c05
+    c05.check_cdf_search_extent(ctx, F)      # the TRUSTED-DATA rows of the searched decoders say 'the search lands in 1..len-1': true only for a search that excludes the last entry
     n_cursor_unsafe = sum(1 for s in unsafe_sites(F) if s['body'].file.endswith('backends.rs'))
     check_mut_escape(ctx, F, n_cursor_unsafe)
     check_unsafe_impls(ctx, F)
